@@ -31,7 +31,10 @@ BOUNDS = {
              'before the stall arrive at symbolic instants; relay: the peer '
              'goes silent (or trickles its reply) at every stage of an SMTP '
              'or LMTP conversation, PIPELINING on/off, also on the second '
-             'message of a reused connection; pipe relay: the program hangs; '
+             'message of a reused connection; the same with the peer refusing '
+             'the sender / every recipient / the first recipient (4xx or 5xx) '
+             'and answering DATA with 354 or 503 before it goes silent at '
+             'DATA, end of data, RSET or QUIT; pipe relay: the program hangs; '
              'HTTP relay: the server never responds',
     'thorough': 'trickles of 6 bytes, 2 recipients',
 }
@@ -59,6 +62,10 @@ def cells(tier):
                         'n': 1})
     out.append({'kind': 'relay_stall', 'lmtp': 0, 'pipe': 1, 'n': 2,
                 'reuse': 1})
+    for lmtp in (0, 1):
+        for pipe in (0, 1):
+            out.append({'kind': 'relay_reject_stall', 'lmtp': lmtp,
+                        'pipe': pipe})
     out.append({'kind': 'relay_idle_fragment', 'lmtp': 0, 'pipe': 0})
     out.append({'kind': 'relay_idle_fragment', 'lmtp': 1, 'pipe': 1})
     out.append({'kind': 'relay_trickle', 'k': 4})
@@ -335,6 +342,69 @@ def run_relay_stall(cell):
     # in virtual time, so the attempt must end exactly `limit` after start
     api.prove(done_at[i] == start + limit, 'attempt-outlived-its-timeout',
               **info)
+
+
+def run_relay_reject_stall(cell):
+    """the error paths of a delivery: the peer refuses the sender or every
+    recipient (4xx/5xx), answers DATA with 354 or an error, and falls silent
+    at a later stage (end of data, RSET, or the next command)"""
+    import gevent
+    from .c11 import make_relay, attempt, RC
+    qc.fresh_hub()
+    qc.patch_env()
+    nc.reset()
+    lmtp, pipe = cell['lmtp'], cell['pipe']
+    rcpts = RC[:2]
+    what = api.choice('refused', 3)      # MAIL, every RCPT, first RCPT
+    code = ['450', '550'][api.choice('code', 2)]
+    over = {}
+    if what == 0:
+        over[('MAIL', None)] = ('reply', code, ['no'])
+    elif what == 1:
+        over[('RCPT', None)] = ('reply', code, ['no'])
+    else:
+        over[('RCPT', 0)] = ('reply', code, ['no'])
+    if api.choice('data_reply', 2):
+        over[('DATA', None)] = ('reply', '503', ['bad sequence'])
+    stall = [('EOD', 0), ('RSET', 0), ('QUIT', 0), ('DATA', 0)][
+        api.choice('stall_stage', 4)]
+    over[stall] = ('stall',)
+    ext = ('PIPELINING', '8BITMIME') if pipe else ('8BITMIME',)
+    peers = []
+
+    def creator(address):
+        p = nc.ScriptedPeer(nc.ok_script(ext, over), lmtp=bool(lmtp))
+        peers.append(p)
+        return p.start()
+    relay = make_relay(lmtp, creator)
+    out = []
+    done = {}
+    t0 = api.real('t_start', 0, 5)
+
+    def go():
+        gevent.sleep(t0)
+        attempt(relay, qc.make_envelope('m0', 's@z', rcpts), out)
+        done['at'] = qc.now()
+    gevent.spawn(go)
+    qc.run_until_quiescent()
+    info = dict(lmtp=lmtp, pipe=pipe, refused=what, code=code,
+                stall=stall[0], data_error=('DATA', None) in over)
+    if not api.prove(len(out) == 1, 'attempt-never-finished', **info):
+        return
+    kind, val = out[0]
+    api.observe('kind', kind)
+    api.prove(kind in ('value', 'relay-error'), 'non-relay-exception',
+              got=type(val).__name__, **info)
+    # at most one blocking step is outstanding when the peer stalls: the
+    # attempt ends within data_timeout (20) of its start if the stalled
+    # step is the end-of-data reply, else within command_timeout (10)
+    stalled = peers and peers[0].stalled
+    api.observe('stalled', bool(stalled))
+    if not stalled:
+        api.prove(done['at'] == t0, 'attempt-outlived-its-timeout', **info)
+    else:
+        api.prove(done['at'] <= t0 + 20, 'attempt-outlived-its-timeout',
+                  at=done['at'], **info)
 
 
 def run_relay_idle_fragment(cell):
